@@ -15,6 +15,7 @@ import os, json, hashlib, subprocess, threading
 import vcheck, conc_check
 
 _last_buckets = None
+DROPPED = []     # cases in which the cuckoo model dropped an item in resize() (C17's sequential defect)
 
 H = os.path.join(vcheck.VERIF, "harness", "C16")
 NKEYS = 6
@@ -197,6 +198,10 @@ def correspond(cases, mlogs, ilogs):
         if m is None or i is None or i["end"] is None:
             continue
         n += 1
+        if any(" ev dropped " in l for l in m["lines"]):
+            # ghost marker of the cuckoo model: resize() fell through without re-inserting an item (property C17)
+            DROPPED.append(c["id"])
+            m = dict(m); m["lines"] = [l for l in m["lines"] if " ev dropped " not in l]
         d = conc_check.compare(m, i)
         if d is None:
             ok += 1; steps += len(i["lines"])
@@ -568,6 +573,7 @@ def run(ctx):
         "cases_hitting_the_step_limit": sum(s["fuel"] for s in stats.values()),
         "samples": [allcases["cuckoo_i"][0], allcases["striped_i0"][0]],
         "step_correspondence": corr,
+        "cases_with_the_C17_sequential_drop": len(DROPPED),
         "traces_validated_against_impl": sum(v["agree"] for v in corr.values()),
     })
     return ctx.finish(vcheck.STD_TRUSTED + ["hook layer: khizmax_libcds_verif::atomic<T>, baton scheduler, event log (hooks/include)",
